@@ -2,14 +2,14 @@
 # tools/confirm_seeded.sh <Cxx> — confirm every candidate /tmp/mut/<Cxx>/out/<n> in that property's own scratch worktree:
 # patch applies, pinned suite still 116 passed, demo exits 1 with the change and 0 without.
 id=$1; wt=/tmp/mut/$id/repo
-for d in /tmp/mut/$id/out/*/; do
+for d in /tmp/mut/$id/${OUTDIR:-out}/*/; do
   n=$(basename $d); [ -f $d/patch.diff ] || continue
   git -C $wt checkout -q -- . ; git -C $wt clean -fdq
   if ! git -C $wt apply $d/patch.diff 2>/dev/null; then echo "$id/$n apply-failed"; continue; fi
   t=$(cd $wt && timeout 1200 /venv/bin/python -m pytest -q -p no:cacheprovider --timeout=900 2>&1 | tail -1)
-  (cd $wt && PYTHONPATH=$wt timeout 120 /venv/bin/python $d/demo.py $wt >/tmp/mut/$id/out/$n/demo_with.txt 2>&1); e1=$?
+  (cd $wt && PYTHONPATH=$wt timeout 120 /venv/bin/python $d/demo.py $wt >/tmp/mut/$id/${OUTDIR:-out}/$n/demo_with.txt 2>&1); e1=$?
   git -C $wt checkout -q -- . ; git -C $wt clean -fdq
-  (cd $wt && PYTHONPATH=$wt timeout 120 /venv/bin/python $d/demo.py $wt >/tmp/mut/$id/out/$n/demo_without.txt 2>&1); e0=$?
+  (cd $wt && PYTHONPATH=$wt timeout 120 /venv/bin/python $d/demo.py $wt >/tmp/mut/$id/${OUTDIR:-out}/$n/demo_without.txt 2>&1); e0=$?
   echo "$id/$n tests=[$t] demo_with=$e1 demo_without=$e0"
   printf '{"tests":"%s","demo_with_change_exit":%d,"demo_without_change_exit":%d}\n' "$t" $e1 $e0 > $d/confirm.json
 done
